@@ -195,7 +195,7 @@ theorem C18_erase (cx : Codecs) (debug : Bool) :
                   | error e => simp [erase]
                   | ok s =>
                     simp only []
-                    cases hs : snappyChunks cx.unsnap (s.length + 1) s [] with
+                    cases hs : snappyChunks (uncompressTo cx) (s.length + 1) s [] with
                     | err => simp [erase]
                     | panic => simp [erase]
                     | ok v =>
